@@ -14,13 +14,22 @@ type countingSubscriber struct {
 	directSubscriber
 	subscribes int
 	ctxs       []context.Context
+	entered    chan struct{} // closed (if non-nil) when Subscribe is first entered
+	gate       chan struct{} // Subscribe waits for this (if non-nil) before returning
 }
 
 func (s *countingSubscriber) Subscribe(ctx context.Context, topic string) (<-chan *Message, error) {
 	s.mu.Lock()
 	s.subscribes++
 	s.ctxs = append(s.ctxs, ctx)
+	first := s.subscribes == 1
 	s.mu.Unlock()
+	if first && s.entered != nil {
+		close(s.entered)
+	}
+	if s.gate != nil {
+		<-s.gate
+	}
 	ch, err := s.directSubscriber.Subscribe(ctx, topic)
 	if err != nil {
 		return nil, err
@@ -129,4 +138,31 @@ func HarnessC10StopOne() {
 	<-mB.Acked()
 	vrt.Assert(handledB == 1 && handledA == 0, "Stop ends that handler only; the other keeps processing")
 	vrt.Observe("handledB", handledB)
+}
+
+// HarnessC10SecondRun: a second Run that arrives while the first one is still starting up (its handler's
+// Subscribe is in progress) returns an error and disturbs nothing.
+func HarnessC10SecondRun() {
+	r, _ := NewRouter(RouterConfig{}, watermill.NopLogger{})
+	sub := &countingSubscriber{entered: make(chan struct{}), gate: make(chan struct{})}
+	r.AddNoPublisherHandler("A", "ta", sub, func(m *Message) error { return nil })
+	ctx, cancel := context.WithCancel(context.Background())
+	runDone := make(chan error, 1)
+	go func() {
+		vrt.MustFinish()
+		runDone <- r.Run(ctx)
+	}()
+	<-sub.entered // the first Run is in its start-up: it has registered itself as running
+	second := make(chan error, 1)
+	go func() {
+		vrt.MustFinish()
+		second <- r.Run(context.Background())
+	}()
+	close(sub.gate)
+	err2 := <-second
+	vrt.Assert(err2 != nil, "a second Run returns an error")
+	<-r.Running()
+	cancel()
+	vrt.Assert(<-runDone == nil, "the first Run is undisturbed and returns nil")
+	vrt.Assert(sub.subscribes == 1, "the handler is subscribed once")
 }
